@@ -148,6 +148,30 @@ class Recorder:
 
 
 def make_listener(key, lid, acts, values, rec, mutable):
+    """the callback handed to listen(); NOTHING else keeps a reference to it (the registry must keep its
+    listeners alive), and its callable kind varies with the listener id: closure, functools.partial, bound
+    method of a temporary object, temporary object with async __call__"""
+    import functools
+    body = _listener_body(key, lid, acts, values, rec, mutable)
+    kind = lid % LISTENER_KINDS
+    _kind('listener-callable-kind', kind)
+    if kind == 0:
+        return body
+    if kind == 1:
+        async def with_arg(_unused, event):
+            await body(event)
+        return functools.partial(with_arg, lid)
+
+    class Subscriber:
+        async def __call__(self, event):
+            await body(event)
+
+        async def on_event(self, event):
+            await body(event)
+    return Subscriber().on_event if kind == 2 else Subscriber()
+
+
+def _listener_body(key, lid, acts, values, rec, mutable):
     async def listener(event):
         r = rec.enter(key, lid, event)
         try:
@@ -549,41 +573,103 @@ def md_pairs(tags):
     return [('x-k%d' % (t % 3), str(t)) for t in tags]
 
 
+def md_items(x):
+    """the (key, value) pairs of anything grpclib accepts as metadata: a mapping or a collection of pairs"""
+    return list(x.items()) if hasattr(x, 'items') else list(x)
+
+
 def md_tags(items):
-    return [int(v) for k, v in items if k.startswith('x-k')]
+    return [int(v) for k, v in md_items(items) if k.startswith('x-k')]
+
+
+def tag_of(fn):
+    """the tag carried by a handler of any callable kind"""
+    for o in (fn, getattr(fn, '__self__', None), getattr(fn, 'func', None)):
+        t = getattr(o, '_tag', None)
+        if t is not None:
+            return tuple(t)
+    raise AttributeError('handler without a tag: %r' % (fn,))
+
+
+MD_KINDS = 5         # MultiDict, CIMultiDict, dict, list of pairs, tuple of pairs
+MSG_KINDS = 2        # bytes, bytearray
+HANDLER_KINDS = 6    # async def, functools.partial, object with async __call__, sync function returning the
+#                      coroutine, bound coroutine method, sync function returning a non-coroutine awaitable
+LISTENER_KINDS = 4   # closure, functools.partial, bound method of a temporary, object with async __call__
+
+
+KIND_COUNTS = {}
+
+
+def _kind(what, k):
+    KIND_COUNTS[what + ':%d' % k] = KIND_COUNTS.get(what + ':%d' % k, 0) + 1
+
+
+def make_metadata(tags, kind):
+    from multidict import MultiDict, CIMultiDict
+    pairs = md_pairs(tags)
+    kind %= MD_KINDS
+    _kind('assigned-metadata-kind', kind)
+    if kind == 0:
+        return MultiDict(pairs)
+    if kind == 1:
+        return CIMultiDict(pairs)
+    if kind == 2:
+        return {'%s-u%d' % (k, i): v for i, (k, v) in enumerate(pairs)}       # a plain dict: unique keys
+    if kind == 3:
+        return list(pairs)
+    return tuple(pairs)
 
 
 class WireValues:
-    """e2e cases: metadata = MultiDict of tagged pairs, message = bytes, method_func = tagged handler"""
+    """e2e cases: metadata = tagged pairs, message = byte string, method_func = tagged handler.  Every value a
+    listener assigns is taken in turn from the kinds the library accepts for that field: metadata as
+    MultiDict / CIMultiDict / dict / list or tuple of pairs, messages as bytes / bytearray, handlers as
+    coroutine function / partial / object with async __call__ / sync function returning the coroutine /
+    bound coroutine method / sync function returning another awaitable."""
 
     def __init__(self, make_handler, rng_bits):
         self.make_handler = make_handler
         self.bits = rng_bits
+        self.n = rng_bits
+
+    def kind(self):
+        self.n += 1
+        return self.n
 
     def const(self, f, v):
-        from multidict import MultiDict
         if f == 'metadata':
-            return MultiDict(md_pairs(v))
+            return make_metadata(v, self.kind())
         if f == 'message':
-            return bytes(v)
+            return bytes(v) if self.kind() % MSG_KINDS == 0 else bytearray(v)
         if f == 'method_func':
-            return self.make_handler(tuple(v))
+            return self.make_handler(tuple(v), self.kind())
         return tuple(v)
 
     def app(self, f, old, v):
-        from multidict import MultiDict
         if f == 'metadata':
             self.bits = (self.bits * 5 + 3) % 64
-            if self.bits & 1:                       # edit in place, then assign the same object
+            if self.bits & 1 and hasattr(old, 'add'):     # edit in place, then assign the same object
                 for k, x in md_pairs(v):
                     old.add(k, x)
                 return old
-            return MultiDict(list(old.items()) + md_pairs(v))
+            return make_metadata(md_tags(old) + list(v), self.kind())
         if f == 'message':
-            return old + bytes(v)
+            new = bytes(old) + bytes(v)
+            return new if self.kind() % MSG_KINDS == 0 else bytearray(new)
         if f == 'method_func':
-            return self.make_handler(old._tag + tuple(v))
+            return self.make_handler(tag_of(old) + tuple(v), self.kind())
         return tuple(v)
+
+
+class _Later:
+    """an awaitable that is not a coroutine"""
+
+    def __init__(self, coro):
+        self.coro = coro
+
+    def __await__(self):
+        return self.coro.__await__()
 
 
 CLIENT_STAGE_METH = {'SendRequest': 'send_request', 'SendMessage': 'send_message',
@@ -628,11 +714,43 @@ class Call:
         self.gate = None
 
     # -- server application
-    def make_handler(self, tag):
+    def make_handler(self, tag, kind=0):
+        """a handler of the given callable kind; all of them run self.handle(stream, tag)"""
+        import functools
+        owner = self
+        kind %= HANDLER_KINDS
+        _kind('assigned-handler-kind', kind)
+
         async def handler(stream):
-            await self.handle(stream, tag)
-        handler._tag = tag
-        return handler
+            await owner.handle(stream, tag)
+
+        async def with_tag(t, stream):
+            await owner.handle(stream, t)
+
+        class Middleware:
+            _tag = tag
+
+            async def __call__(self, stream):
+                await owner.handle(stream, tag)
+
+            async def serve(self, stream):
+                await owner.handle(stream, tag)
+        if kind == 0:
+            h = handler
+        elif kind == 1:
+            h = functools.partial(with_tag, tag)
+        elif kind == 2:
+            return Middleware()
+        elif kind == 3:
+            def h(stream):
+                return owner.handle(stream, tag)
+        elif kind == 4:
+            return Middleware().serve
+        else:
+            def h(stream):
+                return _Later(owner.handle(stream, tag))
+        h._tag = tag
+        return h
 
     async def handle(self, stream, tag):
         from grpclib.const import Status
@@ -640,7 +758,7 @@ class Call:
         c = self.case
         mid = c.get('mid')
         self.seen['handler'] = list(tag)
-        self.seen['md'] = md_tags(stream.metadata.items())
+        self.seen['md'] = md_tags(stream.metadata)
         reqs = self.seen['reqs'] = []
         limit = len(c['reqs']) + LOOP_SLACK
 
@@ -800,9 +918,9 @@ class Call:
             finally:
                 st = ref.get('s')
                 if st is not None and st.initial_metadata is not None:
-                    out['im'] = md_tags(st.initial_metadata.items())
+                    out['im'] = md_tags(st.initial_metadata)
                 if st is not None and st.trailing_metadata is not None:
-                    out['tm'] = md_tags(st.trailing_metadata.items())
+                    out['tm'] = md_tags(st.trailing_metadata)
         except Exception as e:
             out['exit'] = tag(e)
         seen_tags = [t for op, t in out['errors']] + [t for op, t in out.get('refused', [])] + [out['exit']]
@@ -1361,8 +1479,11 @@ def run(ctx):
         for mode in ('client', 'server', 'pair'):
             for _ in range(ctx.n(300, 4000)):
                 e2e.append(gen_e2e(rng, mode))
+        KIND_COUNTS.clear()
         check_direct(ctx, res, direct)
         check_e2e(ctx, res, e2e)
+        for k, v in sorted(KIND_COUNTS.items()):
+            res.count('kinds:' + k, v)
     finally:
         logging.disable(old)
     return res
